@@ -6,7 +6,9 @@ logger, written branch by branch from the Go source.
 * `Line`, `Line.equal`            — `logLine` (observable fields) and `logLine.Equal`; the merge decision
                                     itself is `PB.Gen.Log.lineEqual`, regenerated from the switch in
                                     logging.go on every run (PBProofs/C20 states what it must be)
-* `Levels`, `fastcheck`, `enabled` — `fastcheck()` and the level filter at the top of `log()`
+* `Levels`, `fastcheck`, `enabled` — `fastcheck()` (regenerated: `PB.Gen.Log.fastcheck`) and the level filter at
+                                    the top of `log()`
+* `addTracer`                     — the decision tree of `AddTracer` (regenerated: `PB.Gen.Log.addTracer`)
 * `submitLine`                    — `ContextTracer.Submit`: last collected line becomes the main line
 * `wstep`                         — the writer goroutine (`writer()` + `finalizeWriting()`), one event per
                                     channel operation / atomic store, with the adapter writes it performs
@@ -73,11 +75,9 @@ def lookupPkg : List (Nat × Nat) → Nat → Option Nat
   | [], _ => none
   | (k, v) :: rest, p => if k = p then some v else lookupPkg rest p
 
-/-- `fastcheck(level)`. -/
-def fastcheck (c : Levels) (lvl : Nat) : Bool :=
-  if c.active then true
-  else if lvl ≥ c.glob then true
-  else false
+/-- `fastcheck(level)`: the function of log/input.go as regenerated from the source
+    (`PB.Gen.Log.fastcheck`; PBProofs/C20 `fastcheck_decision` states what it must be). -/
+def fastcheck (c : Levels) (lvl : Nat) : Bool := PB.Gen.Log.fastcheck c.active c.glob lvl
 
 /-- The level filter of `log()`. `pkg = none` stands for a caller file path with fewer than two
     segments ("file too short for package levels"). -/
@@ -96,6 +96,14 @@ def enabled (c : Levels) (pkg : Option Nat) (lvl : Nat) : Bool :=
     active and the package has one, the global level otherwise. -/
 def threshold (c : Levels) (p : Nat) : Nat :=
   if c.active then (lookupPkg c.pkgs p).getD c.glob else c.glob
+
+/-- `AddTracer(ctx)` called from origin `pkg` (`none`: a caller file path with fewer than two segments) under
+    the levels `c`: is a live tracer handed out? The decision tree is the code's own, regenerated from
+    log/trace.go (`PB.Gen.Log.addTracer`): `fastcheck(TraceLevel)`, then — package levels active — the entry of
+    the caller's package or else the global level, — inactive — the global level, then the check for a tracer
+    already in the context. `callerOk = false`: `runtime.Caller(1)` failed. -/
+def addTracer (c : Levels) (ctxNil callerOk : Bool) (pkg : Option Nat) (existing : Bool) : Bool :=
+  PB.Gen.Log.addTracer ctxNil callerOk pkg.isNone c.active c.glob (pkg.bind (lookupPkg c.pkgs)) existing
 
 /-! ## The levels in force when the logger starts: `-log` / `-plog` flags, `ParseLevel`, `Severity.Name` -/
 
@@ -285,6 +293,31 @@ def PState.pending : PState → List Line
 
 /-! ## The interleaving semantics -/
 
+/-- One line collected by a live tracer (`tracer.log`), with ghost notes about the collecting call: the origin
+    it was made from and the levels in force at that moment. -/
+structure Collected where
+  e : Entry
+  pkg : Option Nat
+  lv : Levels
+  deriving DecidableEq, Repr, Inhabited
+
+/-- A live context tracer: what `AddTracer` put into the context of a goroutine. `lv`/`pkg` are ghost: the
+    levels in force when `AddTracer` took its decision and the origin it was called from. -/
+structure Tracer where
+  logs : List Collected
+  lv : Levels
+  pkg : Option Nat
+  deriving DecidableEq, Repr, Inhabited
+
+/-- A submission as accepted (ghost history): the line `Submit` built and the tracer it came from. -/
+structure Sub where
+  line : Line
+  tr : Tracer
+  deriving DecidableEq, Repr, Inhabited
+
+/-- Is `lvl` one of the `Severity` constants (what the logging functions pass on, see `levelCalls`)? -/
+def isSeverity (lvl : Nat) : Bool := PB.Gen.Log.severities.any (·.2 == lvl)
+
 /-- A buffered line with the (ghost) id of the goroutine that enqueued it. -/
 abbrev Owned := Nat × Line
 
@@ -298,7 +331,9 @@ structure St where
   shut : Bool               -- `shutdownSignal` closed (Shutdown requested)
   w : Writer
   prods : Nat → PState
+  tr : Nat → Option Tracer  -- the live tracer in the context the goroutine works with (one context at a time)
   -- ghost history
+  subs : Nat → List Sub     -- per goroutine: its tracer submissions, in program order
   out : List Write          -- adapter calls so far
   enq : List Owned          -- everything ever enqueued, in channel order
   deq : List Owned          -- everything ever dequeued by the writer, in order
@@ -310,12 +345,17 @@ def upd {α : Type} (f : Nat → α) (p : Nat) (x : α) : Nat → α := fun q =>
 
 def St.init (cap : Nat) (paced : Bool) (lv : Levels) : St :=
   { cap := cap, paced := paced, lv := lv, buf := [], flag := false, token := false, shut := false,
-    w := Writer.init, prods := fun _ => .idle, out := [], enq := [], deq := [],
+    w := Writer.init, prods := fun _ => .idle, tr := fun _ => none, subs := fun _ => [], out := [], enq := [], deq := [],
     logged := fun _ => [], enqAtShut := 0 }
 
 inductive Act where
   | p (pid : Nat) (e : PEv)
   | w (e : WEv)
+  | addTracer (pid : Nat) (pkg : Option Nat) (live : Bool)
+                                  -- `AddTracer(ctx)` by goroutine `pid` from origin `pkg`; `live`: a tracer came back
+  | collect (pid : Nat) (e : Entry) (pkg : Option Nat)
+                                  -- `tracer.Info(msg)` … on the goroutine's LIVE tracer from origin `pkg` (`tracer.log`:
+                                  -- no level check at all); on a nil tracer the same call is `.p pid (.call …)`
   | wforce (pid : Nat)            -- rendezvous on `forceEmptyingOfBuffer` between producer `pid` and the writer
   | trigger                       -- `TriggerWriter()` (non-blocking send on `writeTrigger`)
   | setLevel (g : Nat)
@@ -339,8 +379,8 @@ def step (s : St) : Act → Option St
   -- producers
   | .p pid (.call l pkg pass) =>
     match s.prods pid with
-    | .idle =>
-      if pass = fastcheck s.lv l.lvl then
+    | .idle =>   -- every logging function calls `log(…, nil)`: a plain line (`levelCalls`), pre-checked at its own severity
+      if l.trace = none ∧ pass = fastcheck s.lv l.lvl then
         some { s with prods := upd s.prods pid (if pass then .inLog l pkg else .idle) }
       else none
     | _ => none
@@ -352,9 +392,17 @@ def step (s : St) : Act → Option St
         else some { s with prods := upd s.prods pid .idle }
       else none
     | _ => none
-  | .p pid (.submit l) =>
+  | .p pid (.submit l) =>      -- `Submit` on the live tracer: no level check; the decision was `AddTracer`'s
     match s.prods pid with
-    | .idle => if l.trace.isSome then some (s.accept pid l) else none
+    | .idle =>
+      if l.trace.isSome then
+        match s.tr pid with
+        | some t =>
+          if submitLine (t.logs.map (·.e)) = some l then
+            some { (s.accept pid l) with tr := upd s.tr pid none, subs := upd s.subs pid (s.subs pid ++ [⟨l, t⟩]) }
+          else none
+        | none => none
+      else none
     | _ => none
   | .p pid .enq =>
     match s.prods pid with
@@ -385,6 +433,22 @@ def step (s : St) : Act → Option St
     match s.prods pid with
     | .won => if s.token then some { s with prods := upd s.prods pid .idle } else none
     | _ => none
+  -- context tracers
+  | .addTracer pid pkg live =>
+    match s.prods pid with
+    | .idle =>
+      if live = addTracer s.lv false true pkg (s.tr pid).isSome then
+        if live then some { s with tr := upd s.tr pid (some { logs := [], lv := s.lv, pkg := pkg }) }
+        else some s
+      else none
+    | _ => none
+  | .collect pid e pkg =>
+    match s.prods pid, s.tr pid with
+    | .idle, some t =>
+      if isSeverity e.lvl then
+        some { s with tr := upd s.tr pid (some { t with logs := t.logs ++ [⟨e, pkg, s.lv⟩] }) }
+      else none
+    | _, _ => none
   -- the writer
   | .w .token =>
     if s.token ∧ s.w.pc = .waitLogs then some { s with token := false, w := { s.w with pc := .gotToken } }
